@@ -57,5 +57,10 @@ CLAIMS.update({
             'note': 'The sorting step itself (sorted(items)) and the item loop of represent_mapping are assumed, not discharged; the dump fixed point and hash-seed independence are not claimed.',
             'technique': _T, 'design_ref': 'DESIGN.md 5/C16'},
 })
+CLAIMS.update({
+    'C14': {'text': 'BaseConstructor.construct_mapping / construct_pairs / construct_sequence are under discharged contracts: only mapping (sequence) nodes are accepted, every unhashable key is rejected with ConstructorError (a genuine defect here was repaired by a fix: commit), one result entry per node entry, the object cache only grows and the in-progress set and deep flag are restored.',
+            'note': 'Merge flattening (flatten_mapping / SafeConstructor.construct_mapping) and the omap/pairs/set shape checks are NOT proved: they are covered by a bounded stand-in (all mappings with <= 3 entries over plain/merge/merge-list/quoted-<</= keys, sources nested <= 2, shared sources), labelled bounded and not counted as proved.',
+            'technique': _T, 'design_ref': 'DESIGN.md 5/C14'},
+})
 for _p in CLAIMS:
     NOT_APPLICABLE.pop(_p, None)
